@@ -115,3 +115,7 @@ package sub
 //@   ensures !was ==> isnil(result)
 //@   before call:Unlock#2 assert s.closed && !was
 //@   before call:Close#1 assert !held(s.Mutex)
+//@
+//@ func (*context).RecvMsg
+//@   loop 1 ensures !called_since("loop1:head", "After") && !called_since("loop1:head", "NewTimer") && !called_since("loop1:head", "AfterFunc")
+//@   before select#1 assert selwaits(timeQ) && (at("call:Unlock#1", c.recvExpire) > 0 ==> timer_d(timeQ) == at("call:Unlock#1", c.recvExpire))
